@@ -469,3 +469,15 @@ GROUPS["p5"] = [
     # the same feature with the right re-basing: the property holds, the checks must stay silent
     E("p-c12-detached-suffixes-rebased", ["C02", "C12", "C01"], "harper-core/src/document.rs", _C12_OLD, _C12_GOOD, None),
 ]
+
+GROUPS["g14"] = [
+    # the first-word clause dropped
+    E("c18-no-first-word", ["C18"], "harper-core/src/title_case.rs",
+      "            || index == 0\n", "",
+      "R-C18-first"),
+]
+GROUPS["p5"] += [
+    E("p-c18-yoda", ["C18"], "harper-core/src/title_case.rs",
+      "            || index == 0\n", "            || 0 == index\n",
+      None),
+]
